@@ -44,6 +44,7 @@ type rndReq struct {
 	Done     bool
 	Started  bool // oracle: context started at due+1
 	Dead     bool // oracle: failed / timed out: never fulfilled
+	Cap      sdk.Coins // oracle: the fee cap the requester stated
 }
 
 type rndSnap struct {
@@ -171,6 +172,13 @@ func (w *randomWorkload) Next(block int) []rig.Tx {
 		if len(txs) > 0 {
 			return txs
 		}
+	}
+	// every ninth block a provider of the random service re-prices its binding (2, 3 or 4 stake: within the larger caps
+	// requesters state), also while seeded requests wait
+	if block%9 == 4 && !w.quiet {
+		p := w.provs[rng.Intn(len(w.provs))]
+		out = append(out, r.Mk(p, &rndTag{Kind: "setup"}, &servicetypes.MsgUpdateServiceBinding{ServiceName: servicetypes.RandomServiceName, Provider: p.Addr.String(), Owner: p.Addr.String(), Pricing: fmt.Sprintf(`{"price":"%dstake"}`, 2+rng.Intn(3))}))
+		w.run.Count("provider-of-the-random-service-re-priced", 1)
 	}
 	// answer outstanding seed requests (some are deliberately left to time out or answered with an error / by the wrong provider)
 	for _, b := range w.pending {
@@ -330,7 +338,7 @@ func (w *randomWorkload) Observe(br *rig.BlockRecord) {
 				if w.twin[id] {
 					continue
 				}
-				rq := &rndReq{Consumer: m.Consumer, H: H, Due: H + int64(m.BlockInterval), Oracle: m.Oracle}
+				rq := &rndReq{Consumer: m.Consumer, H: H, Due: H + int64(m.BlockInterval), Oracle: m.Oracle, Cap: m.ServiceFeeCap}
 				w.reqs[id] = rq
 				if m.Oracle && tx.Post != nil {
 					// the service context created for it: find through the queued request record
@@ -555,6 +563,7 @@ func (w *randomWorkload) Observe(br *rig.BlockRecord) {
 			if _, started := postBegin.Oracle[lowerHex(rq.CtxID)]; started {
 				rq.Started = true
 				run.Count("oracle-started", 1)
+				w.seedRequestSent(H, id, rq)
 			} else {
 				run.Count("oracle-start-failed", 1)
 				// taken off the queue without being started: legitimate only if the service context could not be started
@@ -571,6 +580,46 @@ func (w *randomWorkload) Observe(br *rig.BlockRecord) {
 			w.pending = append(w.pending, b)
 		}
 	}
+}
+
+// seedRequestSent: in the block in which the context of an oracle-seeded request was started, the service module's end
+// block sends the seed request to the provider the context names - provided that provider is eligible by the figures
+// the chain holds after that block (binding available, its promise within the timeout, its price for this requester
+// within the cap the requester stated and within the requester's balance).
+func (w *randomWorkload) seedRequestSent(H int64, id string, rq *rndReq) {
+	r, run := w.r, w.run
+	cid, err := hex.DecodeString(rq.CtxID)
+	if err != nil {
+		return
+	}
+	ctx := r.Ctx()
+	rc, ok := r.K.Service.GetRequestContext(ctx, cid)
+	if !ok || len(rc.Providers) != 1 || rc.BatchCounter == 0 {
+		return
+	}
+	run.Eval(1)
+	if rc.BatchRequestCount > 0 {
+		run.Count("seed-request-sent-in-the-block-its-context-started", 1)
+		return
+	}
+	pa, err := sdk.AccAddressFromBech32(rc.Providers[0])
+	ca, err2 := sdk.AccAddressFromBech32(rq.Consumer)
+	if err != nil || err2 != nil {
+		return
+	}
+	bd, bound := r.K.Service.GetServiceBinding(ctx, servicetypes.RandomServiceName, pa)
+	if !bound || !bd.Available || int64(bd.QoS) > rc.Timeout {
+		run.Count("seed-request-not-sent:provider-not-eligible", 1)
+		return
+	}
+	price := r.K.Service.GetPrice(ctx, ca, bd)
+	if len(rq.Cap) == 0 || !rq.Cap.IsAllGTE(price) || !r.App.BankKeeper.GetAllBalances(ctx, ca).IsAllGTE(price) {
+		run.Count("seed-request-not-sent:price-above-cap-or-balance", 1)
+		return
+	}
+	run.Violation("C18:random:seed-request-not-sent-to-an-eligible-provider", map[string]any{"height": H, "provider": rc.Providers[0], "price": price.String(), "cap_stated": rq.Cap.String(), "cap_of_the_context": rc.ServiceFeeCap.String()},
+		"oracle request %s of %s (made at %d with fee cap %s): its context started in block %d but no seed request went to %s, whose binding is available, promises an answer within %d <= %d blocks and costs %s (the context carries the cap %s): no seed response can ever arrive",
+		id, rq.Consumer, rq.H, rq.Cap, H, rc.Providers[0], bd.QoS, rc.Timeout, price, rc.ServiceFeeCap)
 }
 
 func okSuffix(tx *rig.TxRecord) string {
